@@ -19,6 +19,7 @@ REGISTRY = {
     "C14": "labels",
     "C15": "config",
     "C20": "enums",
+    "C06": "scores",
     "C07": "frames",
     "C05": "clear",
 }
